@@ -135,6 +135,14 @@ Definition contains (n : ipnet) (ip : ipraw) : bool :=
   | Some (nn, m) => Nat.eqb (length ip') (length nn) && masked_eq nn m ip'
   end.
 
+(* A zone on an address that has an IPv4 form ("::ffff:1.2.3.4%eth0" resolves to such an IPAddr): IPAddr.String
+   prints "1.2.3.4%eth0", which is not an address literal — net.Dial would look it up as a host name. *)
+Definition zoned_v4 (ip : ipraw) (zone : bytes) : bool :=
+  match zone with
+  | [] => false
+  | _ => match to4 ip with Some _ => true | None => false end
+  end.
+
 (* ---------------------------------------------------------------- policy *)
 Record policy := {
   p_block : list ipnet;        (* covertBlocklistSubnets *)
@@ -181,6 +189,7 @@ Section External.
           | None => (None, lookup, [host])
           | Some (ip, zone) =>
             if negb (valid_ip ip) then (None, lookup, [host])    (* no IP (empty host): rejected *)
+            else if zoned_v4 ip zone then (None, lookup, [host]) (* IPv4(-mapped) address with a zone: rejected *)
             else if blocked pol ip then (None, lookup, [host])
             else (Some (join_host_port (ip_text ip zone) port), lookup, [host])
           end
